@@ -37,16 +37,17 @@ def hx(b):
     return b.hex() if b else "-"
 
 
-MAX_REPORTS = 12
-_reported = [0]
+MAX_REPORTS = 6          # per kind of finding (key prefix): keeps one broken rule from hiding the others
+_reported = {}
 
 
 def report(ctx, key, what, replay, found_input=True):
-    """ctx.violation with a cap on the number of VIOLATION lines of one run (known findings always go through)"""
+    """ctx.violation with a cap on the number of VIOLATION lines per kind in one run (known findings always go through)"""
     if ctx.known_finding(key) is None:
-        _reported[0] += 1
-        if _reported[0] > MAX_REPORTS:
-            ctx.cov["violations_suppressed_after_cap"] = _reported[0] - MAX_REPORTS
+        kind = key.split(":")[0]
+        _reported[kind] = _reported.get(kind, 0) + 1
+        if _reported[kind] > MAX_REPORTS:
+            ctx.cov["violations_suppressed_after_cap"] = ctx.cov.get("violations_suppressed_after_cap", 0) + 1
             return
     ctx.violation(key, what, replay, found_input)
 
@@ -420,10 +421,19 @@ def monitor_meta(m, ans):
 
 def monitor_blk(m, ans):
     f = ans.split()
-    if len(f) != 2:
+    if len(f) != 4 or not f[2].startswith("iw=") or not f[3].startswith("fw="):
         return ["unexpected answer"]
     flags, d = int(f[0]), (bytes.fromhex(f[1]) if f[1] != "-" else b"")
     bad = []
+    # the size word process_completed_block records: stored size in the low 24 bits, bit 24 set iff stored uncompressed
+    words = [int(x.split("=")[1]) for x in f[2:] if not x.endswith("=-")]
+    if len(words) > 1:
+        bad.append("both an inode word and a fragment table word recorded")
+    if d and not flags & 0x0400:
+        if len(words) != 1 or words[0] & 0xFFFFFF != len(d) or bool(words[0] >> 24 & 1) == bool(flags & 0x8000) or words[0] >> 25:
+            bad.append("size word %s for %d stored bytes, compressed=%s" % (words, len(d), bool(flags & 0x8000)))
+        if bool(flags & 0x4000) != f[2].endswith("=-"):
+            bad.append("size word recorded in the wrong place (%s %s)" % (f[2], f[3]))
     comp = bool(flags & 0x8000)
     if m["codec"] != "grow":
         if len(d) > len(m["data"]):
@@ -746,15 +756,56 @@ def monitor_num(m, ans):
     return bad
 
 
+def link_targets(rng, sp):
+    """give every `h` of a spec a target: the k-th `f` (any of them, before or after the link)"""
+    nf = sp.count("f")
+    if "h" in sp and nf == 0:
+        sp, nf = "f" + sp, 1
+    return "".join("h%d" % rng.randrange(nf) if c == "h" else c for c in sp)
+
+
+def monitor_num_links(spec, ans):
+    """children before parent also for hard links: a directory's number exceeds that of every inode its hard-link entries
+    name (the target must have been serialised, its reference known, when the directory's listing is written)"""
+    import re
+    try:
+        root, _ = parse_num(ans)
+    except (ValueError, IndexError):
+        return []
+    toks = re.findall(r"h\d*|f|\(|\)", spec)
+    files, bad = [], []
+
+    def walk(node, it):          # collect file numbers in spec order
+        for k in node[2]:
+            t = next(it)
+            if t == "(":
+                walk(k, it); next(it)
+            elif t == "f":
+                files.append(k[1])
+    walk(root, iter(toks))
+
+    def check(node, it):
+        for k in node[2]:
+            t = next(it)
+            if t == "(":
+                check(k, it); next(it)
+            elif t.startswith("h"):
+                tgt = files[int(t[1:] or 0)]
+                if tgt >= node[1]:
+                    bad.append("directory %d links inode %d, which is serialised after it" % (node[1], tgt))
+    check(root, iter(toks))
+    return bad
+
+
 def numbering(ctx, harness_n):
     rng = ctx.rng
-    specs = ["", "f", "h" * 0, "()", "(())", "f(fh(f))f", "(h)f", "(f)(f)h", "ff(hh)(h(h))f", "((((((f))))))"]
+    specs = ["", "f", "()", "(())", "f(fh1(f))f", "(h0)f", "(f)(f)h1", "ff(h0h1)(h1(h0))f", "((((((f))))))", "(h1)(f)f", "((h3f)(h2fh3))ff(f)",
+             "(h2h1h0)fff(h0)"]
     for _ in range(150 if ctx.quick() else 2500):
         sp = gen_spec(rng, rng.randrange(0, 5), rng.choice([2, 4, 8, 30]), rng.choice([0.0, 0.0, 0.15, 0.4]))
-        if "h" in sp and "f" not in sp:
-            sp = "f" + sp
-        specs.append(sp)
+        specs.append(link_targets(rng, sp))
     specs.append("f" * 3000 + "(" + "f" * 300 + ")" * 1)
+    specs.append("(" + "".join("h%d" % k for k in range(0, 400, 3)) + ")" + "f" * 200 + "(" + "f" * 200 + "h7)")
     lines = ["num " + sp if sp else "num" for sp in specs]
     impl, crash = run_harness(ctx, harness_n, lines)
     if crash:
@@ -763,21 +814,21 @@ def numbering(ctx, harness_n):
                {"kind": "num", "line": lines[min(k, len(lines) - 1)][:500]})
         return {"numbering_lines": len(impl)}
     model = driver_lines(ctx, lines)
-    reordered = exact = 0
+    linked = exact = 0
     for l, sp, a, b in zip_strict(lines, specs, impl, model):
-        bad = monitor_num({"spec": sp}, a)
+        bad = monitor_num({"spec": sp}, a) + monitor_num_links(sp, a)
         if bad:
             report(ctx, "num:" + vlib.sha(l)[:10], "inode numbering violates its specification: %s" % "; ".join(bad)[:300],
                    {"kind": "num", "line": l[:2000], "impl": a[:500], "model": b[:500]})
         elif a != b:
-            if "h" in sp:
-                reordered += 1          # reorder_hard_links moved link targets: not modelled, specification holds
-            else:
-                report(ctx, "corr:num:" + vlib.sha(l)[:10], "numbering model and fstree_post_process disagree on a tree without hard links: %s vs %s" % (a[:100], b[:100]),
-                       {"kind": "num", "line": l[:2000], "impl": a[:500], "model": b[:500]}, found_input=False)
+            report(ctx, "corr:num:" + vlib.sha(l)[:10], "numbering model (DFS + reorder_hard_links) and fstree_post_process disagree: %s vs %s" % (a[:100], b[:100]),
+                   {"kind": "num", "line": l[:2000], "impl": a[:500], "model": b[:500]}, found_input=False)
         else:
             exact += 1
-    return {"numbering_lines": len(lines), "numbering_equal_to_model": exact, "numbering_reordered_by_hard_links": reordered}
+            linked += "h" in sp
+    if linked == 0:
+        raise vlib.CheckFailure("internal: no tree with hard links was numbered")
+    return {"numbering_lines": len(lines), "numbering_equal_to_model": exact, "numbering_trees_with_hard_links": linked}
 
 
 def run_harness(ctx, harness, lines, timeout=1500):
@@ -1784,9 +1835,9 @@ def replay(ctx, path):
         model = ctx.driver(["c03", "ops"], rp["line"] + "\n")
         print("impl :", impl, "crash:", crash)
         print("model:", model)
-        bad = monitor_num({"spec": rp["line"][4:]}, impl[0]) if impl else ["crash"]
+        bad = monitor_num({"spec": rp["line"][4:]}, impl[0]) + monitor_num_links(rp["line"][4:], impl[0]) if impl else ["crash"]
         print("clauses:", bad)
-        return 1 if bad or crash or (impl != model and "h" not in rp["line"]) else 0
+        return 1 if bad or crash or impl != model else 0
     if kind == "longname":
         before = len(ctx.violations) + len(ctx.known_hits)
         print(long_name_probe(ctx, tools, unz))
